@@ -292,6 +292,9 @@ Proof. unfold cache_immune_keys, new_cache, init_chunks. simpl. induction (N.to_
 
 (* ------------------------------------------------------------------ C12: survival *)
 
+Lemma run_from_cons s o r : run_from s (o :: r) = run_from (step s o) r.
+Proof. reflexivity. Qed.
+
 Definition no_withdraw (k : bytes) (o : op) : Prop := o <> OClear /\ o <> ORemove k.
 
 Lemma survive_step s o k q : cache_inv s -> no_withdraw k o ->
@@ -354,7 +357,7 @@ Lemma survives_present cfg ops1 ks ops3 k q :
   Forall (no_withdraw k) ops3 ->
   cache_get (run cfg (ops1 ++ OImmunize ks :: ops3)) k = Some q.
 Proof.
-  intros Hv Hok1 Hok3 Hacc Hin Hg Hnw. unfold run. rewrite run_from_app. simpl.
+  intros Hv Hok1 Hok3 Hacc Hin Hg Hnw. unfold run. rewrite run_from_app, run_from_cons.
   fold (run cfg ops1). pose proof (run_inv cfg ops1 Hv Hok1) as Hinv.
   apply survive_run; auto.
   - apply step_inv; [assumption|exact I].
@@ -382,8 +385,7 @@ Proof.
   { rewrite E2. apply immune_stays_run; auto. apply accepted_immune; assumption. }
   replace (ops1 ++ OImmunize ks :: ops2 ++ OAdd k p sz :: ops3) with ((ops1 ++ OImmunize ks :: ops2) ++ OAdd k p sz :: ops3)
     by (rewrite <- app_assoc; reflexivity).
-  unfold run. rewrite run_from_app. fold (run cfg (ops1 ++ OImmunize ks :: ops2)). simpl.
-  change (fst (fst (fst (cache_add (run cfg (ops1 ++ OImmunize ks :: ops2)) k p sz)))) with (add_state (run cfg (ops1 ++ OImmunize ks :: ops2)) k p sz).
+  unfold run. rewrite run_from_app. fold (run cfg (ops1 ++ OImmunize ks :: ops2)). rewrite run_from_cons, step_add.
   apply survive_run; auto.
   - rewrite <- step_add. apply step_inv; assumption.
   - rewrite add_immune_keys; assumption.
@@ -438,7 +440,7 @@ Proof.
     + split; assumption.
     + split; [apply fold_add_key_nodup; assumption|]. intros x.
       rewrite immunized_immune by assumption. rewrite fold_add_key_In, H. reflexivity.
-  - simpl. unfold cache_clear. rewrite new_cache_immune. split; [constructor|tauto].
+  - split; [constructor|]. intros x. cbn [step]. unfold cache_clear. rewrite new_cache_immune. tauto.
 Qed.
 
 Lemma imm_rel_run ops : forall s S, cache_inv s -> Forall op_ok ops -> imm_rel s S ->
@@ -471,7 +473,7 @@ Proof.
   - simpl. rewrite remove_immune by assumption. tauto.
   - rewrite step_immunize_eq, cache_immunize_state. destruct (immunize_refused s ks); [assumption|].
     rewrite immunized_immune by assumption. simpl in Hni. tauto.
-  - simpl. unfold cache_clear. rewrite new_cache_immune. tauto.
+  - cbn [step]. unfold cache_clear. rewrite new_cache_immune. tauto.
 Qed.
 
 Lemma not_immune_run ops : forall s k, cache_inv s -> Forall op_ok ops -> Forall (no_immunize k) ops ->
@@ -507,3 +509,180 @@ Proof.
   split; [assumption|]. intros it Hin Hk.
   destruct (i_immune it) eqn:E; [|reflexivity]. exfalso. apply Hn. rewrite <- Hk. apply flag_iff_immune; assumption.
 Qed.
+
+(* ------------------------------------------------------------------ C12: only non-immune items leave on an add *)
+
+Lemma add_evicts_only_non_immune s k p sz it : cache_inv s ->
+  In it (cache_items s) -> ~ In it (cache_items (add_state s k p sz)) ->
+  ~ In (i_key it) (cache_immune_keys s) /\ i_immune it = false.
+Proof.
+  intros Hinv Hin Hout.
+  assert (Hn : ~ In (i_key it) (cache_immune_keys s)).
+  { intros Himm. apply Hout. apply add_keeps_immune; assumption. }
+  split; [assumption|]. destruct (i_immune it) eqn:E; [|reflexivity].
+  exfalso. apply Hn. apply flag_iff_immune; assumption.
+Qed.
+
+(* ------------------------------------------------------------------ provenance of residents *)
+
+Lemma in_strip_map l l' it : map strip l' = map strip l -> In it l' -> exists it0, In it0 l /\ strip it0 = strip it.
+Proof.
+  intros E Hin. apply (in_map strip) in Hin. rewrite E in Hin. apply in_map_iff in Hin.
+  destruct Hin as (it0 & H1 & H2). exists it0. split; assumption.
+Qed.
+
+(** a resident of the state after [o] was resident before (same key, payload, size) or is what [o] adds *)
+Lemma resident_step s o it : cache_inv s -> In it (cache_items (step s o)) ->
+  (exists it0, In it0 (cache_items s) /\ strip it0 = strip it) \/ o = OAdd (i_key it) (i_payload it) (i_size it).
+Proof.
+  intros Hinv Hin. destruct o as [k p sz|k|ks|].
+  - rewrite step_add in Hin. destruct (add_unfold s k p sz) as (Hst & _). rewrite Hst in Hin.
+    set (i := chunk_index (ca_cfg s) k) in *. set (c := get_chunk s i) in *.
+    pose proof (add_target_lt s k Hinv) as Hi. fold i in Hi.
+    unfold cache_items in Hin. apply (in_concat_map_nth ch_items _ (dflt s)) in Hin.
+    destruct Hin as (j & Hj & Hin). simpl in Hj. rewrite replace_nth_length in Hj.
+    change (In it (ch_items (get_chunk (set_chunk s i (ar_chunk (add_item c k p sz))) j))) in Hin.
+    assert (Hback : forall x, In x (ch_items (get_chunk s j)) -> In x (cache_items s)).
+    { intros x Hx. unfold cache_items. apply (in_concat_map_nth ch_items _ (dflt s)). exists j. split; assumption. }
+    destruct (Nat.eq_dec j i) as [E|E].
+    + rewrite E, get_set_same in Hin by assumption. rewrite E in Hback. fold c in Hback.
+      destruct (add_item_spec _ c k p sz (add_target_inv s k Hinv)) as [x Hf|Hf _ _|c1 Hf _ Hsh _ _]; simpl in Hin.
+      * left. exists it. split; [apply Hback; assumption|reflexivity].
+      * left. exists it. split; [apply Hback; assumption|reflexivity].
+      * apply in_app_iff in Hin. destruct Hin as [Hin|[Hin|[]]].
+        -- left. exists it. split; [apply Hback, (sh_incl _ _ Hsh); assumption|reflexivity].
+        -- right. subst it. reflexivity.
+    + rewrite get_set_other in Hin by assumption. left. exists it. split; [apply Hback; assumption|reflexivity].
+  - left. exists it. split; [|reflexivity]. cbn [step] in Hin.
+    pose proof (cache_remove_inv s k Hinv) as Hinv'.
+    apply cache_items_routed in Hin; [|assumption]. apply cache_items_routed; [assumption|].
+    rewrite remove_unfold in Hin. cbn [fst] in Hin. change (ca_cfg (set_chunk s _ _)) with (ca_cfg s) in Hin.
+    destruct (Nat.eq_dec (chunk_index (ca_cfg s) (i_key it)) (chunk_index (ca_cfg s) k)) as [E|E].
+    + rewrite E in *. rewrite get_set_same in Hin by (apply chunk_index_lt; assumption).
+      apply (remove_item_items (routed (ca_cfg s) (chunk_index (ca_cfg s) k))) in Hin; [tauto|].
+      apply (cv_chunks _ Hinv _ (chunk_index_lt s k Hinv)).
+    + rewrite get_set_other in Hin by assumption. assumption.
+  - left. rewrite step_immunize_eq, cache_immunize_state in Hin.
+    destruct (immunize_refused s ks); [exists it; split; [assumption|reflexivity]|].
+    apply (in_strip_map _ _ _ (immunized_items_strip s ks Hinv) Hin).
+  - cbn [step] in Hin. unfold cache_clear in Hin. rewrite new_cache_items in Hin. contradiction.
+Qed.
+
+Lemma resident_run ops : forall s it, cache_inv s -> Forall op_ok ops -> In it (cache_items (run_from s ops)) ->
+  (exists it0, In it0 (cache_items s) /\ strip it0 = strip it) \/ In (OAdd (i_key it) (i_payload it) (i_size it)) ops.
+Proof.
+  induction ops as [|o r IH]; intros s it Hinv Hok Hin.
+  - left. exists it. split; [assumption|reflexivity].
+  - inversion Hok; subst. rewrite run_from_cons in Hin.
+    destruct (IH (step s o) it (step_inv s o Hinv H1) H2 Hin) as [(it0 & Hin0 & E0)|Hr].
+    + destruct (resident_step s o it0 Hinv Hin0) as [(it1 & Hin1 & E1)|Ho].
+      * left. exists it1. split; [assumption|congruence].
+      * right. left. unfold strip in E0. inversion E0. subst o. congruence.
+    + right. right. assumption.
+Qed.
+
+(** every resident was put there by an add of this history, with this payload and this size *)
+Lemma resident_provenance cfg ops it : cfg_valid cfg = true -> Forall op_ok ops ->
+  In it (cache_items (run cfg ops)) -> In (OAdd (i_key it) (i_payload it) (i_size it)) ops.
+Proof.
+  intros Hv Hok Hin. destruct (resident_run ops (new_cache cfg) it (new_cache_inv cfg Hv) Hok Hin) as [(it0 & H0 & _)|H]; [|assumption].
+  rewrite new_cache_items in H0. contradiction.
+Qed.
+
+Lemma get_resident s k q : cache_inv s -> cache_get s k = Some q ->
+  exists it, In it (cache_items s) /\ i_key it = k /\ i_payload it = q.
+Proof.
+  intros Hinv Hg. rewrite cache_get_option in Hg. destruct (cache_get_item s k) as [it|] eqn:E; [|discriminate].
+  inversion Hg; subst. unfold cache_get_item in E. apply find_item_some in E. destruct E as [Hin Hk].
+  exists it. split; [|split; [assumption|reflexivity]]. apply cache_items_routed; [assumption|]. rewrite Hk. assumption.
+Qed.
+
+(* ------------------------------------------------------------------ history-level statements (used by Props/C12.v, C13.v) *)
+
+Section Reachable.
+Variables (cfg : cache_cfg) (ops : list op).
+Hypothesis Hv : cfg_valid cfg = true.
+Hypothesis Hok : Forall op_ok ops.
+Let s := run cfg ops.
+Let Hinv : cache_inv s := run_inv cfg ops Hv Hok.
+
+Lemma h_flag_iff_immune it : In it (cache_items s) -> (i_immune it = true <-> In (i_key it) (cache_immune_keys s)).
+Proof. apply flag_iff_immune, Hinv. Qed.
+
+Lemma h_only_non_immune_evicted k p sz it : In it (cache_items s) -> ~ In it (cache_items (step s (OAdd k p sz))) ->
+  ~ In (i_key it) (cache_immune_keys s) /\ i_immune it = false.
+Proof. apply add_evicts_only_non_immune, Hinv. Qed.
+
+Lemma h_no_overwrite k p sz k' q q' : cache_get s k' = Some q -> cache_get (step s (OAdd k p sz)) k' = Some q' -> q' = q.
+Proof. apply add_no_overwrite, Hinv. Qed.
+
+Lemma h_add_present k p sz : cache_has s k = true -> cache_add s k p sz = (s, true, false, false).
+Proof. apply add_present, Hinv. Qed.
+
+Lemma h_refused_unchanged k p sz :
+  cache_has s k = false -> is_exceeded (get_chunk s (chunk_index (ca_cfg s) k)) = true ->
+  (forall it, In it (ch_items (get_chunk s (chunk_index (ca_cfg s) k))) -> In (i_key it) (cache_immune_keys s)) ->
+  cache_add s k p sz = (s, false, false, false).
+Proof. apply add_refused_all_immune, Hinv. Qed.
+
+Lemma h_not_added_unchanged k p sz : add_added s k p sz = false -> step s (OAdd k p sz) = s.
+Proof. apply add_not_added_same, Hinv. Qed.
+
+Lemma h_payload_is_original k q : cache_get s k = Some q -> exists sz, In (OAdd k q sz) ops.
+Proof.
+  intros Hg. destruct (get_resident _ _ _ Hinv Hg) as (it & Hin & Hk & Hp).
+  exists (i_size it). rewrite <- Hk, <- Hp. apply (resident_provenance cfg ops it Hv Hok Hin).
+Qed.
+
+Lemma h_fuel_suffices k p sz : add_fuel_out s k p sz = false.
+Proof. apply add_no_fuel_out, Hinv. Qed.
+
+Lemma h_bound : (cache_count s <= cf_numChunks cfg * (cf_maxItems cfg / cf_numChunks cfg))%N /\
+  (cf_numChunks cfg * (cf_maxItems cfg / cf_numChunks cfg) <= cf_maxItems cfg)%N.
+Proof.
+  split.
+  - pose proof (cache_count_bound s Hinv) as H. unfold s in H at 2 3 4. unfold run in H. rewrite run_from_cfg in H. exact H.
+  - pose proof (cfg_valid_nc _ Hv). apply N.mul_div_le. lia.
+Qed.
+
+Lemma h_views :
+  cache_count s = N.of_nat (length (cache_keys s)) /\
+  cache_keys s = map i_key (cache_items s) /\
+  NoDup (cache_keys s) /\
+  (forall k, cache_has s k = true <-> In k (cache_keys s)) /\
+  (forall k, cache_has s k = true <-> exists q, cache_get s k = Some q).
+Proof.
+  split; [apply cache_count_keys|]. split; [apply cache_keys_items|]. split; [apply cache_keys_nodup, Hinv|].
+  split; [intros k; apply cache_has_keys, Hinv|].
+  intros k. rewrite cache_get_has. destruct (cache_get s k) as [q|]; split; intros H; eauto; try discriminate.
+  destruct H as (q & H); discriminate.
+Qed.
+
+Lemma h_bytes : cache_num_bytes s = sum_sizes (cache_items s) /\
+  (forall it, In it (cache_items s) -> In (OAdd (i_key it) (i_payload it) (i_size it)) ops /\ (0 <= i_size it)%Z).
+Proof.
+  split; [apply cache_bytes_sum, Hinv|]. intros it Hin.
+  pose proof (resident_provenance cfg ops it Hv Hok Hin) as Hp. split; [assumption|].
+  apply (proj1 (Forall_forall op_ok ops) Hok _ Hp).
+Qed.
+
+Lemma h_flags k p sz :
+  add_has s k p sz = cache_has s k /\
+  add_added s k p sz = negb (cache_has s k) && cache_has (step s (OAdd k p sz)) k /\
+  (add_added s k p sz = true -> cache_get (step s (OAdd k p sz)) k = Some p).
+Proof.
+  split; [apply add_has_spec, Hinv|]. split; [apply add_added_spec, Hinv|]. apply add_added_get, Hinv.
+Qed.
+
+Lemma h_remove k :
+  snd (cache_remove s k) = cache_has s k /\
+  cache_get (step s (ORemove k)) k = None /\
+  ~ In k (cache_immune_keys (step s (ORemove k))) /\
+  (forall k', k' <> k -> cache_get (step s (ORemove k)) k' = cache_get s k' /\
+                         (In k' (cache_immune_keys (step s (ORemove k))) <-> In k' (cache_immune_keys s))).
+Proof.
+  split; [apply remove_result|]. split; [apply remove_gone, Hinv|]. cbn [step].
+  split; [rewrite remove_immune by apply Hinv; tauto|].
+  intros k' Hne. split; [apply remove_other; [apply Hinv|assumption]|]. rewrite remove_immune by apply Hinv. tauto.
+Qed.
+End Reachable.
